@@ -48,15 +48,15 @@ type FuncAlt struct {
 }
 
 type mapIter struct {
-	m       Val
-	n       int // iterations done
-	keys    []*Term
-	lenAt   *Term
-	str     bool
-	slice   bool
-	asc     bool
-	lo, hi  int
-	forced  []*Term
+	m      Val
+	n      int // iterations done
+	keys   []*Term
+	lenAt  *Term
+	str    bool
+	slice  bool
+	asc    bool
+	lo, hi int
+	forced []*Term
 }
 
 type UnsupportedError struct{ msg string }
